@@ -143,9 +143,11 @@
                         (string-cursor-end s1))))
 
 (define (string-prefix? s1 s2 . o)
-  (equal? (string-length s1) (apply string-prefix-length s1 s2 o)))
+  (equal? (string-length (string-arg s1 o))
+          (apply string-prefix-length s1 s2 o)))
 (define (string-suffix? s1 s2 . o)
-  (equal? (string-length s1) (apply string-suffix-length s1 s2 o)))
+  (equal? (string-length (string-arg s1 o))
+          (apply string-suffix-length s1 s2 o)))
 
 (define (string-index str pred . o)
   (apply string-find str pred (cursor-args str o)))
